@@ -89,7 +89,12 @@ class _Run:
         self.ops = []  # compact trace of the history (goes into every oracle hit)
         self.ndirs = 0
         self.last_wopen = None
+        self.rng3 = random.Random(case["seed"] ^ 0xB1A5)  # sampling of the by-name openings of torn states
         self.step = 0  # number of the history step that is being executed (oracle hits carry it: shrink target)
+        self.name = case.get("name", "rec")  # record name (what the containers are found by when a record is opened by name)
+        self.byname = case.get("byname", True)  # also open every crash state BY RECORD NAME (False: file lists only)
+        self.thin = case.get("thin", False)  # long chains: a sample of the snapshots, each opened in ONE of the two forms
+        self.nskipped = 0
 
     # -- directory helpers
     def files_now(self):
@@ -100,6 +105,10 @@ class _Run:
         import shutil
 
         if self.busy:
+            return
+        if self.thin and len(self.ih5_now()) >= 6 and self.rng3.random() >= 0.45:
+            # long chains: the cost of a snapshot grows with the chain; beyond 5 containers a random 45 % are analysed
+            self.nskipped += 1
             return
         self.busy = True
         self.nsnap += 1
@@ -157,7 +166,7 @@ class _Run:
         taken = False
         try:
             newest = max(IH5UserBlock.load(p).patch_index for p in paths)
-            taken = os.path.exists(os.path.join(self.d, "rec.p%d.ih5" % (newest + 1)))  # _next_patch_filepath
+            taken = os.path.exists(os.path.join(self.d, "%s.p%d.ih5" % (self.name, newest + 1)))  # _next_patch_filepath
         except Exception:  # noqa: BLE001  (a block that does not load: the model answers err whatever `taken` is)
             pass
         self.ml.cfg(self.mf)
@@ -235,7 +244,8 @@ class _Run:
         rng = self.rng2
         files = self.ih5_now()
         mode = rng.choice(["r+", "a"])
-        form = rng.choice(["name", "list", "shuffled"])
+        # (v >= 3: a restarted process knows the record by its name; that form is the usual one)
+        form = rng.choice(["name", "list", "shuffled"] if self.v < 3 else ["name", "name", "name", "list", "shuffled"])
         unc = False
         try:
             from metador_core.ih5.record import IH5UserBlock
@@ -247,25 +257,49 @@ class _Run:
         self.ops.append("%s(%s)" % (self.label, form))
         self.tags.add("%s:%s" % (self.label, form))
         if form == "name":
-            return self.wopen(os.path.join(self.d, "rec"), files, mode)
+            return self.wopen(os.path.join(self.d, self.name), files, mode)
         paths = [Path(self.d) / n for n in files]
         if form == "shuffled":
             rng.shuffle(paths)
         return self.wopen(paths, [p.name for p in paths], mode)
 
-    def open_set(self, sd, names, label, what):
-        """open the containers `names` of snapshot dir sd with the real code and the model"""
+    def open_set(self, sd, names, label, what, by_name=False, si=None):
+        """open the containers `names` of snapshot dir sd with the real code and the model.
+        by_name: sd holds exactly these containers and the record is opened by its NAME (what a process
+        does after a restart: the containers are found by `find_files`); the observation is compared with
+        the model's answer for the file list (the line of the preceding open_set of the same containers)."""
         paths = [os.path.join(sd, n) for n in names]
-        self.ml.cfg(self.mf)
-        for p in paths:
-            self.ml.file(p, p + "mf.json")
-        self.ml.open()
-        self.sel.append(len(self.ml.lines) - 1)
-        rec, res, ek = cc.open_real(self.cls, paths)
-        info = dict(res=res, kind=ek)
+        if by_name:
+            from pathlib import Path
+
+            if si is None:  # (no file-list opening of these containers precedes: describe them for the model here)
+                self.ml.cfg(self.mf)
+                for p in paths:
+                    self.ml.file(p, p + "mf.json")
+                self.ml.open()
+                si = len(self.ml.lines) - 1
+            self.sel.append(si)
+            try:
+                rec, res, ek = self.cls(Path(sd) / self.name, "r"), "ok", ""
+            except Exception as e:  # noqa: BLE001  (every exception is "opening failed")
+                rec, res, ek = None, "err", cc.err_kind(e)
+            what += "-by-name"
+        else:
+            self.ml.cfg(self.mf)
+            for p in paths:
+                self.ml.file(p, p + "mf.json")
+            self.ml.open()
+            self.sel.append(len(self.ml.lines) - 1)
+            rec, res, ek = cc.open_real(self.cls, paths)
+        info = dict(res=res, kind=ek, si=self.sel[-1])
         if rec is not None:
             try:
-                self.out.append(cc.order_line(rec, paths))
+                if by_name:
+                    got = [os.path.basename(str(p)) for p in rec.ih5_files]
+                    info["files"] = got
+                    self.out.append(" ".join(["ok"] + [str(names.index(g)) if g in names else "?" for g in got]))
+                else:
+                    self.out.append(cc.order_line(rec, paths))
                 meta = rec.ih5_meta
                 info["hashes"] = [m.hdf5_hashsum is not None for m in meta]
                 info["last_ub"] = meta[-1].json()
@@ -298,21 +332,49 @@ class _Run:
                     self.hit("committed-manifest-changed", at=label, file=name, torn=torn)
         cnames = [c[0] for c in self.committed]
         order = lambda n: (len(n), n)  # noqa: E731
+        # every opening in both forms the constructor takes: the file list, and the record name
+        forms = (False, True) if (self.byname and (torn is None or self.rng3.random() < 0.25)) else (False,)
+        if self.thin and self.byname and torn is None and len(present) >= 6:
+            forms = (True,) if self.rng3.random() < 0.6 else (False,)
         # B. committed files on their own open and show the last committed state
-        if cnames and torn is None:
-            info = self.open_set(sd, sorted(cnames, key=order), label, "committed")
+        si = None
+        for by_name in (forms if cnames and torn is None else ()):
+            via = dict(opened_by="record name") if by_name else {}
+            cdir = sd
+            if by_name:
+                # "on their own": a directory with the committed containers (and their manifests) and nothing else
+                cdir = os.path.join(sd, "own")
+                os.makedirs(cdir)
+                for n in cnames:
+                    for f in (n, n + "mf.json"):
+                        if os.path.isfile(os.path.join(sd, f)):
+                            os.link(os.path.join(sd, f), os.path.join(cdir, f))
+            info = self.open_set(cdir, sorted(cnames, key=order), label, "committed", by_name=by_name, si=si if len(forms) == 2 else None)
+            if by_name and len(cnames) >= 11:
+                self.tags.add("committed-by-name:chain>=11:" + info["res"])
+            si = info["si"]
             if info["res"] != "ok":
-                self.hit("committed-set-does-not-open", at=label, error=info["kind"])
+                self.hit("committed-set-does-not-open", at=label, error=info["kind"], **via)
             elif info["dump"] != self.committed_dump:
-                self.hit("committed-set-shows-other-state", at=label)
+                self.hit("committed-set-shows-other-state", at=label, **via, **({"opened": info["files"], "committed": cnames} if by_name else {}))
+            if by_name:
+                import shutil
+
+                shutil.rmtree(cdir, ignore_errors=True)
         # C. the complete set: fails | uncommitted newest recognisable | fully committed new state
-        if present:
-            info = self.open_set(sd, sorted(present, key=order), label, "all")
+        for by_name in (forms if present else ()):
+            via = dict(opened_by="record name", opened=None) if by_name else {}
+            info = self.open_set(sd, sorted(present, key=order), label, "all", by_name=by_name, si=si if by_name and len(forms) == 2 else None)
+            si = info["si"]
+            if by_name:
+                via["opened"] = info.get("files")
+                if len(present) >= 11:
+                    self.tags.add("all-by-name:chain>=11:" + info["res"])
             if info["res"] == "ok":
                 if not info["hashes"][-1]:
                     self.tags.add("all:opens-with-uncommitted-newest")
                     if not all(info["hashes"][:-1]):
-                        self.hit("inner-container-without-hash-accepted", at=label, torn=torn)
+                        self.hit("inner-container-without-hash-accepted", at=label, torn=torn, **via)
                 else:
                     same_as_committed = sorted(present) == sorted(cnames)
                     if same_as_committed:
@@ -325,9 +387,13 @@ class _Run:
                         if okstate:
                             self.tags.add("all:opens-with-new-committed-state")
                     if not okstate:
-                        self.hit("opens-cleanly-with-unwritten-state", at=label, torn=torn, present=present, committed=cnames)
+                        # (by name only) the last committed state, but the newest container of the set was silently left out:
+                        # neither "interrupted patch recognisable as uncommitted" nor "the fully committed new state"
+                        ignored = by_name and info["dump"] == self.committed_dump and info.get("files") == sorted(cnames, key=order)
+                        self.hit("opens-cleanly-ignoring-newest-container" if ignored else "opens-cleanly-with-unwritten-state",
+                                 at=label, torn=torn, present=present, committed=cnames, **via)
             elif sorted(present) == sorted(cnames) and torn is None:
-                self.hit("committed-set-does-not-open", at=label, error=info["kind"])
+                self.hit("committed-set-does-not-open", at=label, error=info["kind"], **via)
 
     # -- torn writes of one save()
     def torn_event(self, path, before, after, label):
@@ -403,10 +469,10 @@ class _Run:
         import metador_core.ih5.manifest as Mf
         import metador_core.ih5.record as R
 
-        self.root = tempfile.mkdtemp(prefix="c11-")
+        self.root = tempfile.mkdtemp(prefix="c11-", dir=_scratch(self.case))
         self.d = os.path.join(self.root, "dir")
         os.makedirs(self.d)
-        base = os.path.join(self.d, "rec")
+        base = os.path.join(self.d, self.name)
         orig_save, orig_hash, orig_mfsave = R.IH5UserBlock.save, R.hashsum_file, Mf.IH5Manifest.save
         me = self
 
@@ -529,18 +595,33 @@ class _Run:
         self.tags.add("cls=" + self.case["cls"])
         if len(self.committed) >= 2:
             self.tags.add("committed>=2")
+        if len(self.committed) >= 11:
+            self.tags.add("committed>=11")  # (patch indices with two digits)
         return dict(out=self.out, mlines=self.ml.lines, sel=self.sel, oracle=self.oracle, tags=sorted(self.tags),
-                    diag={"snapshots": self.nsnap, "saves": self.nsaves, "aborted-histories": 1 if self.aborted else 0}, aborted=self.aborted)
+                    diag={"snapshots": self.nsnap, "snapshots-not-analysed": self.nskipped, "saves": self.nsaves, "aborted-histories": 1 if self.aborted else 0}, aborted=self.aborted)
 
 
 class _Stop(Exception):
     pass
 
 
+def _scratch(case):
+    """where the directories of a case live: a memory-backed file system when there is one (creating / truncating a file
+    on the disk-backed temp dir costs ~2 ms here, and a history makes tens of thousands of them), the default temp dir
+    for every 16th short history so that both kinds of directory enumeration order stay covered"""
+    d = "/dev/shm"
+    if (case.get("profile") == "long" or case.get("seed", 0) % 16 != 0) and os.path.isdir(d) and os.access(d, os.W_OK | os.X_OK):
+        return d
+    return None
+
+
 # cumulative thresholds of the history ops: (write, commit, discard | create-patch when nothing is writable | close/crash+reopen)
 PROFILES = {
     "base": (0.35, 0.65, 0.75, 0.7, 0.9),
     "recover": (0.22, 0.50, 0.56, 0.55, 0.93),  # crash / recovery / prefix opens about every third step
+    # long patch chains with tiny payloads: mostly create-patch / one write / commit, every third new patch made by a
+    # restarted process (close or crash image, then a writable open), ~3 steps per committed patch
+    "long": (0.40, 0.93, 0.94, 0.62, 0.97),
 }
 
 
@@ -637,17 +718,29 @@ def impl_kill(case):
             if not os.path.isfile(q) or cc.sha(open(q, "rb").read()) != h:
                 oracle.append(dict(kind="committed-file-changed", at="sigkill", file=name, cls=clsname))
 
-        def open_set(names):
+        def open_set(names, name_dir=None):
+            """name_dir: a directory that holds exactly these containers; the record is opened there by its name"""
             paths = [os.path.join(d, n) for n in names]
-            ml.cfg(clsname == "mf")
-            for q in paths:
-                ml.file(q, q + "mf.json")
-            ml.open()
-            sel.append(len(ml.lines) - 1)
-            rec, res, ek = cc.open_real(cls, paths)
+            if name_dir is None:
+                ml.cfg(clsname == "mf")
+                for q in paths:
+                    ml.file(q, q + "mf.json")
+                ml.open()
+                sel.append(len(ml.lines) - 1)
+                rec, res, ek = cc.open_real(cls, paths)
+            else:
+                sel.append(sel[-1])  # (the model's answer for the file list, opened just before)
+                try:
+                    rec, res, ek = cls(os.path.join(name_dir, "rec"), "r"), "ok", ""
+                except Exception as e:  # noqa: BLE001
+                    rec, res, ek = None, "err", cc.err_kind(e)
             info = dict(res=res, kind=ek)
             if rec is not None:
-                out.append(cc.order_line(rec, paths))
+                if name_dir is None:
+                    out.append(cc.order_line(rec, paths))
+                else:
+                    got = [os.path.basename(str(q)) for q in rec.ih5_files]
+                    out.append(" ".join(["ok"] + [str(names.index(g)) if g in names else "?" for g in got]))
                 meta = rec.ih5_meta
                 info["hashes"] = [m.hdf5_hashsum is not None for m in meta]
                 try:
@@ -660,14 +753,24 @@ def impl_kill(case):
                 _close_leaked()
             return info
 
-        if cnames:
-            info = open_set(cnames)
+        own = os.path.join(root, "own")  # the committed containers (and their manifests) on their own
+        os.makedirs(own)
+        for n in cnames:
+            for f in (n, n + "mf.json"):
+                if os.path.isfile(os.path.join(d, f)):
+                    os.link(os.path.join(d, f), os.path.join(own, f))
+        for nd in ((None, own) if cnames else ()):
+            via = dict(opened_by="record name") if nd else {}
+            info = open_set(cnames, nd)
             if info["res"] != "ok":
-                oracle.append(dict(kind="committed-set-does-not-open", at="sigkill", error=info["kind"], cls=clsname))
+                oracle.append(dict(kind="committed-set-does-not-open", at="sigkill", error=info["kind"], cls=clsname, **via))
             elif info["dump"] != dumps.get(cnames[-1]):
-                oracle.append(dict(kind="committed-set-shows-other-state", at="sigkill", cls=clsname))
-        if present:
-            info = open_set(present)
+                oracle.append(dict(kind="committed-set-shows-other-state", at="sigkill", cls=clsname, ncommitted=len(cnames), **via))
+        if len(cnames) >= 11:
+            tags.add("kill:committed>=11")
+        for nd in ((None, d) if present else ()):
+            via = dict(opened_by="record name") if nd else {}
+            info = open_set(present, nd)
             tags.add("kill:all:" + info["res"])
             if info["res"] == "ok":
                 if not info["hashes"][-1]:
@@ -675,7 +778,7 @@ def impl_kill(case):
                 else:
                     # every container committed: must be the state logged for the newest container
                     if info["dump"] != dumps.get(present[-1]) or len(present) > len(cnames) + 1:
-                        oracle.append(dict(kind="opens-cleanly-with-unwritten-state", at="sigkill", present=present, committed=cnames, cls=clsname))
+                        oracle.append(dict(kind="opens-cleanly-with-unwritten-state", at="sigkill", present=present, committed=cnames, cls=clsname, **via))
                     if len(present) == len(cnames) + 1:
                         tags.add("kill:commit-completed-before-journal")
             extra = [f for f in present if f not in cnames]
@@ -701,6 +804,9 @@ def compare(case, ir, mo):
     return None
 
 
+NAMES = ["rec", "r", "R-2", "x-p1", "0", "p1", "rec-", "ih5"]  # record names (letters, digits, '-')
+
+
 def gen_cases(ctx):
     rng = ctx.rng
     cases = []
@@ -709,6 +815,15 @@ def gen_cases(ctx):
         cases.append(dict(kind="snap", cls=["ih5", "mf"][i % 2], seed=rng.randrange(1 << 30), steps=rng.randrange(8, 18),
                           torn="sample" if ctx.quick else ("all" if i % 4 == 0 else "sample"),
                           v=2, profile="recover" if i % 3 == 2 else "base"))
+        if i % 4 == 3:
+            cases[-1]["name"] = NAMES[cases[-1]["seed"] % len(NAMES)]
+    # long patch chains (>= 11 committed containers: patch indices with two digits), tiny payloads; with restarts (close or
+    # crash image, then a writable open, mostly by record name) all along the chain
+    rl = random.Random(rng.randrange(1 << 30))  # (own stream: the histories above stay what they were)
+    for i in range(6 if ctx.quick else 48):
+        cases.append(dict(kind="snap", cls=["ih5", "mf"][i % 2], seed=rl.randrange(1 << 30), steps=rl.randrange(40, 52),
+                          torn="none" if (ctx.quick or i % 4) else "sample", v=3, profile="long", thin=True,
+                          name=NAMES[rl.randrange(len(NAMES))] if i % 3 == 2 else "rec"))
     if not ctx.quick:
         for i in range(240):
             cases.append(dict(kind="kill", cls=["ih5", "mf"][i % 2], seed=rng.randrange(1 << 30), delay=rng.random() ** 2 * 0.6))
@@ -731,7 +846,8 @@ def run(ctx):
         "SHA-256 of the payload is what commit stores (H); no collision assumption is needed for C11",
     ]
     ctx.exhaustive_spaces.append("every cut k in [0,1024] of every user-block write of every generated history (block level, real parser vs model)")
-    cases = core.load_corpus(ID) + gen_cases(ctx)
+    # (the corpus first, then the long chains: the most expensive cases, started first so that the workers finish together)
+    cases = core.load_corpus(ID) + sorted(gen_cases(ctx), key=lambda c: c.get("profile") != "long")
     snap = [c for c in cases if c["kind"] != "kill"]
     kill = [c for c in cases if c["kind"] == "kill"]
     cc.correspond2(ctx, "crash-states", MOD, snap, compare=compare, timeout=900 if not ctx.quick else 150)
